@@ -1,0 +1,15 @@
+// SPDX-FileCopyrightText: 2026 The Pion community <https://pion.ly>
+// SPDX-License-Identifier: MIT
+
+//go:build verif
+
+package cc
+
+// C12Sizes returns the entry counts of the feedback history LRU (list
+// length, map length). Only compiled with the "verif" build tag (property C12).
+func (f *FeedbackAdapter) C12Sizes() (int, int) {
+	f.lock.Lock()
+	defer f.lock.Unlock()
+
+	return f.history.evictList.Len(), len(f.history.items)
+}
